@@ -131,6 +131,25 @@ impl Fixtures {
             }
             maps.push(Doc { bytes: Arc::new(text.into_bytes()), label: format!("inline:nested-index-minimal-depth-{depth}"), kind: DocKind::Inline });
         }
+        // scale: a few large documents with many generated lines (and a rangeMappings line per
+        // generated line); sampled very rarely, they are what makes super-linear decoding or
+        // query time visible to the wall-clock backstop
+        for lines in [20_000usize, 60_000, 120_000] {
+            let mut m = String::with_capacity(lines * 6);
+            let mut r = String::with_capacity(lines * 2);
+            for k in 0..lines {
+                if k > 0 {
+                    m.push(';');
+                    r.push(';');
+                }
+                m.push_str(if k % 3 == 0 { "AAAA,CAAC" } else { "AACA" });
+                if k % 5 == 0 {
+                    r.push('B');
+                }
+            }
+            let text = format!("{{\"version\":3,\"sources\":[\"a.js\"],\"names\":[],\"mappings\":\"{m}\",\"rangeMappings\":\"{r}\"}}");
+            maps.push(Doc { bytes: Arc::new(text.into_bytes()), label: format!("inline:many-lines-{lines}"), kind: DocKind::Inline });
+        }
         if maps.len() < 10 {
             simcore::harness_error("fixture maps under /repo/tests/fixtures not found");
         }
@@ -227,6 +246,11 @@ impl Emit<'_> {
             // positions 16, 32, ... on a line exist (range flags are stored in 6-bit groups,
             // written in 16-bit words)
             let nseg = if long_lines && rng.chance(1, 2) { rng.range_usize(14, 40) } else { rng.small(5) };
+            // a long run of tokens at one and the same generated position (legal: several
+            // original positions for one generated one); lookups that hit it exactly have to walk
+            // back over the whole run
+            let same_pos_run = long_lines && rng.chance(1, 3);
+            let nseg = if same_pos_run { rng.range_usize(17, 70) } else { nseg };
             let mut col = 0i64;
             let mut burst = 0u32;
             let mut burst_sign = 1i64;
@@ -235,7 +259,13 @@ impl Emit<'_> {
                 if s > 0 {
                     out.push(',');
                 }
-                let ncol = if s == 0 { rng.below(6) as i64 } else { col + rng.below(8) as i64 };
+                let ncol = if s == 0 {
+                    rng.below(6) as i64
+                } else if same_pos_run {
+                    col
+                } else {
+                    col + rng.below(8) as i64
+                };
                 if allow_extreme && burst == 0 && rng.chance(1, 40) {
                     // a burst of 2..4 consecutive same-sign deltas near the 62-bit limit
                     burst = 2 + rng.below(3) as u32;
@@ -448,8 +478,9 @@ impl Emit<'_> {
                     if rng.chance(1, 5) {
                         "null".into()
                     } else {
-                        let nn = 1 + rng.small(3);
+                        let nn = if rng.chance(1, 8) { 0 } else { 1 + rng.small(3) };
                         let names: Vec<String> = (0..nn).map(|_| jstr(word(rng))).collect();
+                        let col_only = rng.chance(1, 6);
                         let mut m = String::new();
                         let nl = rng.small(3);
                         for l in 0..=nl {
@@ -461,7 +492,7 @@ impl Emit<'_> {
                                     m.push(',');
                                 }
                                 vlq(&mut m, rng.below(20) as i64);
-                                if rng.chance(3, 4) {
+                                if !col_only && rng.chance(3, 4) {
                                     vlq(&mut m, rng.below(nn as u64 + 1) as i64 - 1);
                                     if rng.chance(2, 3) {
                                         vlq(&mut m, rng.below(5) as i64);
@@ -645,6 +676,9 @@ pub fn draw_kind(rng: &mut Rng, fx: &Fixtures, want: DocKind, big_fixture_pct: u
             if d.bytes.len() > 10_000 && !rng.chance(big_fixture_pct, 100) {
                 continue;
             }
+            if d.bytes.len() > 90_000 && !d.label.starts_with("fixture:") && !rng.chance(1, 60) {
+                continue;
+            }
             if looks_like(d) == want {
                 return d.clone();
             }
@@ -665,6 +699,9 @@ pub fn draw_weighted(rng: &mut Rng, fx: &Fixtures, big_fixture_pct: u64, weights
             loop {
                 let d = rng.pick(&fx.maps[..]).clone();
                 if d.bytes.len() > 10_000 && !rng.chance(big_fixture_pct, 100) {
+                    continue;
+                }
+                if d.bytes.len() > 90_000 && !d.label.starts_with("fixture:") && !rng.chance(1, 60) {
                     continue;
                 }
                 return d;
